@@ -196,19 +196,25 @@ Theorem C11_roundtrip_env_directive : forall (regex : bool) (d : ddir),
 Proof. exact roundtrip_ddir. Qed.
 Print Assumptions C11_roundtrip_env_directive.
 
-(** Filters (partial): for a directive list of that grammar in which every directive is plain or properly dynamic (a
-    span name or a value matcher), the printed filter parses, in strict mode, to a filter with the same static and the
-    same dynamic table.  Not covered: field-name-only directives such as `[{x}]=info` (they live in both tables), and the
-    equality of the two cached `max_level`s (F21's subject, see C11_roundtrip_static). *)
-Theorem C11_roundtrip_env_partial : forall (regex : bool) (ds : list ddir),
-  (forall d, In d ds -> in_class regex d = true) ->
-  let e := env_build None ds in
-  exists e', parse_env regex false None (display_env e) = POk e' /\
-             ds_dirs (e_statics e') = ds_dirs (e_statics e) /\
-             ds_dirs (e_dynamics e') = ds_dirs (e_dynamics e) /\
-             e_has_dyn e' = e_has_dyn e.
-Proof. exact roundtrip_env_tables. Qed.
-Print Assumptions C11_roundtrip_env_partial.
+(** Filters: for EVERY list of directives of that grammar (duplicates, conflicts, field-name-only directives that live in
+    both tables), the filter built from it is printed to a string that parses back, in strict mode, to the SAME filter:
+    static table, dynamic table, `has_dynamics` and both cached `max_level`s.  The F21 hypothesis (no overwritten
+    duplicate above every survivor, in either table) is needed for the unrepaired shape of `add` only. *)
+Theorem C11_roundtrip_env : forall (regex : bool) (ds : list ddir),
+  (forall d, In d ds -> wf_d regex d = true) ->
+  (gen_add_recomputes_max = true \/
+   (stale_g cmp_s s_level (env_static_inputs ds) = false /\ stale_g cmp_d d_level (filter is_dynamic ds) = false)) ->
+  parse_env regex false None (display_env (env_build None ds)) = POk (env_build None ds).
+Proof. exact roundtrip_env. Qed.
+Print Assumptions C11_roundtrip_env.
+
+Theorem C11_roundtrip_env_example :
+  (forall d, In d ex_round -> wf_d true d = true) /\
+  stale_g cmp_s s_level (env_static_inputs ex_round) = false /\ stale_g cmp_d d_level (filter is_dynamic ex_round) = false /\
+  List.length (ds_dirs (e_statics (env_build None ex_round))) = 3%nat /\
+  List.length (ds_dirs (e_dynamics (env_build None ex_round))) = 5%nat.
+Proof. exact roundtrip_env_example. Qed.
+Print Assumptions C11_roundtrip_env_example.
 
 (** every u64, every negative i64 and both booleans are values of the grammar ([value_ok]) *)
 Theorem C11_roundtrip_env_literals :
@@ -218,12 +224,12 @@ Theorem C11_roundtrip_env_literals :
 Proof. exact literal_values_ok. Qed.
 Print Assumptions C11_roundtrip_env_literals.
 
-Theorem C11_roundtrip_env_examples :
-  forallb (in_class true) ex_dirs = true /\
-  in_class false (mk_ddir None (Some [115; 112]) [mk_fmatch [120] (Some (VDebugLit [49; 97]))] (Some Debug)) = true /\
-  in_class false (mk_ddir None None [mk_fmatch [120] None] (Some Info)) = false.
-Proof. exact grammar_members. Qed.
-Print Assumptions C11_roundtrip_env_examples.
+Theorem C11_roundtrip_env_members :
+  forallb (wf_d true) ex_dirs = true /\
+  wf_d false (mk_ddir None (Some [115; 112]) [mk_fmatch [120] (Some (VDebugLit [49; 97]))] (Some Debug)) = true /\
+  wf_d true (mk_ddir None (Some [115; 112]) [mk_fmatch [120] (Some (VDebugLit [49; 97]))] (Some Debug)) = false.
+Proof. exact grammar_members_wf. Qed.
+Print Assumptions C11_roundtrip_env_members.
 
 (** remark (not registered as a finding): `-0` is read as I64(0), printed as `0`, read back as U64(0) *)
 Theorem C11_roundtrip_env_noncanonical_integer :
@@ -245,6 +251,24 @@ Theorem C11_scope : forall (e : envf) (evs : list fev) (tid cs : N) (m : meta),
   scope_spec e (arun e evs) tid (m_level m) || enabled_s (e_statics e) m.
 Proof. exact scope_event. Qed.
 Print Assumptions C11_scope.
+
+(** the same for the op histories the correspondence runs through the real macros ([run_history] is what is compared
+    with the implementation; [hist_trace] lists the filter callbacks such a history performs) *)
+Theorem C11_scope_history : forall (e : envf) (ops : list op) (tid cs : N) (m : meta),
+  wf_env e -> is_span m = false ->
+  let evs := hist_trace e s0 (ops ++ [OEvent tid cs m]) in
+  well_nested e evs -> quiet e evs ->
+  run_history e (ops ++ [OEvent tid cs m]) =
+  run_history e ops ++ [Some (scope_spec e (arun e evs) tid (m_level m) || enabled_s (e_statics e) m)].
+Proof. exact scope_history. Qed.
+Print Assumptions C11_scope_history.
+
+Theorem C11_scope_history_example :
+  well_nested env_x1 (hist_trace env_x1 s0 (ex_ops ++ [OEvent 0 9 (m_event Debug)])) /\
+  quiet env_x1 (hist_trace env_x1 s0 (ex_ops ++ [OEvent 0 9 (m_event Debug)])) /\
+  run_history env_x1 (ex_ops ++ [OEvent 0 9 (m_event Debug)]) = [Some true; None; Some true; None; Some false].
+Proof. exact scope_history_example. Qed.
+Print Assumptions C11_scope_history_example.
 
 Theorem C11_scope_wf_parsed : forall regex lossy default s e, parse_env regex lossy default s = POk e -> wf_env e.
 Proof. exact wf_env_parse. Qed.
